@@ -79,6 +79,7 @@ type writeSet struct {
 	whole  map[string]bool
 	depth  int // frame depth of the loop's frame
 	threshold int
+	iters  map[*ssa.Range]bool
 }
 
 type State struct {
@@ -92,6 +93,7 @@ type State struct {
 	ghostSeq int
 	expectChans []Term
 	qfacts   []qfact
+	iters    map[*ssa.Range]Term // position of string range iterators
 	info     map[string]Val // Go-side knowledge (closure identity, dynamic type, ...) of values stored in cells
 }
 
@@ -167,7 +169,7 @@ func (st *State) pathText() string {
 }
 
 func (st *State) clone() *State {
-	ns := &State{alloc: st.alloc, pc: st.pc, discover: st.discover, pathID: st.pathID, ghostSeq: st.ghostSeq, expectChans: st.expectChans, qfacts: st.qfacts}
+	ns := &State{alloc: st.alloc, pc: st.pc, discover: st.discover, pathID: st.pathID, ghostSeq: st.ghostSeq, expectChans: st.expectChans, qfacts: st.qfacts, iters: st.iters}
 	ns.heap = make(map[string]Term, len(st.heap))
 	for k, v := range st.heap {
 		ns.heap[k] = v
